@@ -83,3 +83,22 @@ def fa_ref(case):
 
     p = case["ubm"]
     return ref.FA(p["means"], p["variances"], case["U"], case["D"], case["V"] if case["jfa"] else None)
+
+
+def present(X, how):
+    """Same values, different container / layout / dtype (see gen.presentation)."""
+    X = np.asarray(X)
+    if how == "fortran":
+        return np.asfortranarray(X.astype(float))
+    if how == "strided":
+        big = np.full((2 * X.shape[0], 2 * X.shape[1] + 1) if X.ndim == 2 else (2 * X.shape[0],), np.nan)
+        if X.ndim == 2:
+            big[::2, 1::2] = X
+            return big[::2, 1::2]
+        big[::2] = X
+        return big[::2]
+    if how == "list":
+        return X.astype(float).tolist()
+    if how == "int":
+        return np.rint(X).astype(np.int64)
+    return X.astype(float)
